@@ -335,3 +335,60 @@ Example c02_root_spec_rejects_forged :
   spec_roots (mkRW 999 1 1 ex_recs []
      [mkRD 2 6%nat (mkRC 100 true true true true [] 0 false 3 4) false [] [100] true false false [] [] [100] []]) = false.
 Proof. vm_compute. split; reflexivity. Qed.
+
+(* ------------------------------------------------------------------------------------------ ACL records landing during a call *)
+(* AddRawChanges validates under the ACL list's READ lock: a record added by the ACL sync handler (under the WRITE lock)
+   lands before the validation or after it.  Race scenarios (Model/TreeAuth.v racescen): the deliveries carry the number
+   of ACL records held when the call was entered, rs_mid the number of records that landed while it ran; the model
+   (model_race) answers every call with one of the two serial outcomes, chosen by [ch]. *)
+
+(* knowing more records never invalidates an authorisation *)
+Theorem c02_auth_ok_mono : forall ids sts (n n' : nat) root derived known c, (n <= n')%nat ->
+  auth_ok ids sts n root derived known c = true -> auth_ok ids sts n' root derived known c = true.
+Proof. exact auth_ok_mono. Qed.
+Print Assumptions c02_auth_ok_mono.
+
+(* each call of the race model is the sequential model's answer to the same batch under the entry length or under the
+   entry length plus the records that landed during the call *)
+Theorem c02_race_serial : forall ds mid ch i d,
+  nth_error ds i = Some d ->
+  exists n, nth_error (race_ins ds mid ch) i = Some (n, d_batch d) /\
+            (n = d_acl_len d \/ n = (d_acl_len d + nth i mid O)%nat).
+Proof. exact race_ins_serial. Qed.
+Print Assumptions c02_race_serial.
+
+(* whatever serial order every call takes: every change that becomes part of the tree is authentic and its author held
+   write permission -- in the TRUTH -- at a cited record the receiver holds when the call returns, parents likewise, and
+   a rejected call is a no-op (spec_race = spec_C02 on the deliveries labelled with the length at return) *)
+Theorem c02_race_model_satisfies_spec : forall ch rs, race_wf rs = true -> spec_race (model_race ch rs) = true.
+Proof. exact race_model_satisfies_spec. Qed.
+Print Assumptions c02_race_model_satisfies_spec.
+
+(* non-vacuity.  Receiver holding 3 records is delivered the change of account 5 citing record 4 (which removes 5) while
+   record 4 lands: both serial orders reject it (unknown record / no permission).  Receiver holding 5 records is
+   delivered the change of account 6 citing record 6 (which adds 6 again) while record 6 lands: rejected if the record
+   lands after the call, attached if it lands before. *)
+Definition ex_race : racescen :=
+  mkRace (mkScen 999 1 1 ex_recs [] ex_root false 3%nat true [] [] []
+            [ mkDel 3%nat [ch 101 [100] 4 5] false 0 [] [] [] [] [];
+              mkDel 5%nat [ch 102 [100] 6 6] false 0 [] [] [] [] [] ])
+         [1%nat; 1%nat].
+Example c02_race_nonvacuous :
+  race_wf ex_race = true /\
+  map (fun d => (d_acl_len d, d_eclass d, d_added d)) (sc_dels (rs_sc (model_race [false; false] ex_race))) =
+    [(3%nat, 2, []); (5%nat, 2, [])] /\
+  map (fun d => (d_acl_len d, d_eclass d, d_added d)) (sc_dels (rs_sc (model_race [true; true] ex_race))) =
+    [(3%nat, 2, []); (5%nat, 0, [102])] /\
+  spec_race (model_race [false; true] ex_race) = true.
+Proof. vm_compute. repeat split; reflexivity. Qed.
+
+(* the specification rejects the non-serial outcome: record 4 found through the list's shared index, the permission of
+   account 5 looked up in the state read BEFORE the record landed -- the removed writer's change attached and stored *)
+Example c02_race_spec_rejects_stale :
+  spec_race (mkRace (mkScen 999 1 1 ex_recs [] ex_root false 3%nat true [100] [100] [100]
+                       [ mkDel 3%nat [ch 101 [100] 4 5] true 0 [101] [101] [100; 101] [101; 100] [true] ])
+                    [1%nat]) = false /\
+  spec_race (mkRace (mkScen 999 1 1 ex_recs [] ex_root false 3%nat true [100] [100] [100]
+                       [ mkDel 3%nat [ch 101 [100] 4 5] false 2 [] [100] [100] [100] [false] ])
+                    [1%nat]) = true.
+Proof. vm_compute. split; reflexivity. Qed.
